@@ -3,4 +3,5 @@ only for readability; contracts register themselves in pyvc.spec.REGISTRY)."""
 MODULES = [
     "specs.vault_maps",
     "specs.coords",
+    "specs.datatypes",
 ]
